@@ -16,6 +16,15 @@ fn main() {
         }
         let out = hist::apply(&mut pool, op);
         println!("  {} => {:?}", op, out);
+        if std::env::var("DBG_TREE").is_ok() {
+            for d in pool.docs.iter() {
+                fn dump(n: &XmlNode, depth: usize) {
+                    println!("{}{}:id{} order{} parent{:?} prev{:?} next{:?}", " ".repeat(depth * 2 + 6), vp::gen::hist::kind_name(n), n.id(), n.order(), n.parent_node().map(|p| p.id()), n.previous_sibling().map(|p| p.id()), n.next_sibling().map(|p| p.id()));
+                    for k in n.child_nodes().iter() { dump(&k, depth + 1); }
+                }
+                dump(&d.as_node(), 0);
+            }
+        }
     }
     for (i, d) in pool.docs.iter().enumerate() {
         println!("doc{}: {}", i, d);
